@@ -342,6 +342,12 @@ fn tokenize_include(
     if include_stack.contains(&canonical_incname) {
         return Err(format!("recursive include of {}", incpathref.display()));
     }
+    if include_stack.len() > MAX_NESTING_DEPTH {
+        return Err(format!(
+            "include files are nested deeper than {MAX_NESTING_DEPTH} levels at {}",
+            incpathref.display()
+        ));
+    }
     let loadresult = loader::load(incpathref);
     if let Ok(incfiledata) = loadresult {
         include_stack.push(canonical_incname);
